@@ -29,6 +29,8 @@ def run(ctx):
     check_exhaustive(ctx, prog, f)
     check_parent(ctx, prog, f)
     check_entities(ctx, prog, f)
+    import nullret
+    nullret.check(ctx, prog, 'C07', ('Xml.cpp',))
     import C08
     n = C08.check_fixed_buffers(ctx, prog, 'C07.outbuf', only_file='Xml.cpp')
     ctx.floor('C07.outbuf', n, 1)
@@ -212,14 +214,26 @@ def check_entities(ctx, prog, f):
     # what the encoder writes for each byte (emit.py): every write to the output stream is evaluated with "the current
     # character" bound to each byte value; a write counts for a byte when no guard of the site excludes that byte
     import emit
+    emitted = None
     try:
-        emitted, reject = emit.emit_table(prog, esc, '_xml')
-    except emit.Unresolved as u:
-        if 'not found' in str(u):
-            raise AnalysisBroken('escape(): %s' % u)
-        ctx.undecided('C07.entities', esc['pq'], 'escape:covers every byte special to the decoder', fwhere(esc), str(u))
-        return
-    ctx.evaluations += 255
+        # primary: the escaper interpreted as a whole on every one-byte string and on short strings over its special bytes
+        emitted, framing, issues = emit.interp_table(prog, esc, '_xml')
+        reject = None
+        ctx.evaluations += 255 + 14 * 14 + 512
+        ctx.check(not issues, 'C07.entities', esc['pq'], 'escape:what is written for a byte does not depend on its neighbours', fwhere(esc), 'strings of 2 and 3 bytes over the special bytes are escaped byte by byte',
+                  'escape() writes %r for the text %r, byte by byte it would be %r: whether a character is escaped depends on the rest of the string' % (
+                      (bytes(issues[0][1] or []), bytes(issues[0][0]), bytes(issues[0][2])) if issues else (b'', b'', b'')))
+    except emit.Unresolved:
+        emitted = None
+    if emitted is None:
+        try:
+            emitted, reject = emit.emit_table(prog, esc, '_xml')
+        except emit.Unresolved as u:
+            if 'not found' in str(u):
+                raise AnalysisBroken('escape(): %s' % u)
+            ctx.undecided('C07.entities', esc['pq'], 'escape:covers every byte special to the decoder', fwhere(esc), str(u))
+            return
+        ctx.evaluations += 255
     table = {}
     for bv, out in emitted.items():
         if out and out[0] == ord('&') and out[-1] == ord(';') and out != [bv]:
